@@ -237,7 +237,7 @@ class Ctx:
         try:
             from . import fdiff
             if str(file).endswith(".hy"):
-                ok, why = fdiff.hy_small_edit(src.hy(file), line or 0)
+                ok, why = fdiff.hy_small_edit(src.hy(file), line or 0, loose)
                 self.last_recognition = why
                 return ok
             mod = src.variant(True).py(file)
